@@ -140,6 +140,9 @@ func NewReceiver(p2pHost host.Host, topicName string, options ...Option) (*Recei
 
 	if p2pHost != nil {
 		r.hostID = p2pHost.ID()
+	}
+	// Without a pubsub topic there is nothing to watch, with or without a host.
+	if p2pHost != nil && topicSub != nil {
 		watchCtx, cancelWatch := context.WithCancel(context.Background())
 		r.cancelWatch = cancelWatch
 		r.watchDone = make(chan struct{})
